@@ -107,10 +107,14 @@ P = {
          "the connection model announces connected=False once per known device, closes the transport once, runs one reconnect chain whose attempts "
          "after a failure are at least the back-off interval apart, sends start-master once, announces connected=True to the same devices and ends "
          "every cycle with 1 producer and consumers_count consumers (invariant over cycles); C11_pinned_refuted for the pinned task growth. "
+         "C11_sm: an event-level state machine (faults, open results, back-off expiries, new devices in ANY order and number) whose chronological "
+         "log is accepted by the monitor of the promise and whose task / transport counts stay those of one connection (inductive invariant); "
+         "C11_sm_refines: the per-cycle model is that machine on the events of one cycle; C11_nobreak_refuted / C11_unguarded_refuted. "
          "Real Connection (scripted opens) + AsyncProtocol + fake transports under the virtual-time loop: faults at the k-th read/write (EOF, "
-         "OSError, 10 s silence, failing write) x failed reconnects x repeated cycles with traffic, compared cycle by cycle.",
+         "OSError, 10 s silence, silence / end of stream inside a frame, failing write) x failed reconnects x repeated cycles with traffic, compared cycle by cycle; "
+         "the chronological log of every run is also judged by the monitor of the event-level model.",
          "partial: sockets/serial ports and wait_for cancellation inside a real transport are not modelled (faults injected at the StreamReader/"
-         "StreamWriter boundary); the model is per-cycle, the interleaving of a fault with in-flight frame handling is exercised, not modelled."),
+         "StreamWriter boundary); the interleaving of a fault with in-flight frame handling is exercised, not modelled."),
  "C12": ("Theorem C12_terminates (closed): for every state (connected or not, any number of queued / unprocessed frames, silent or talking "
          "controller, reconnect chain pending or not, any pending tasks of devices, mixers and thermostats with any indexes) the close() model "
          "returns within the drain bound (20 s) + transport close timeout, leaves no task pending and the transport closed; C12_cancel_all (every "
